@@ -158,7 +158,7 @@ def csv_roundtrip(df, index):
 # ---------------------------------------------------------------------------
 # faults (C12)
 
-FAULTS = ["drop_row", "dup_row", "unknown_item", "blank_value", "extra_row", "drop_column", "junk_columns", "conflicting_dup", "respelled_dup"]
+FAULTS = ["drop_row", "dup_row", "unknown_item", "blank_value", "extra_row", "drop_column", "junk_columns", "conflicting_dup", "respelled_dup", "relabel_to_existing"]
 TOLERATED_MISSING = {"drop_row", "blank_value"}
 TOLERATED_EXTRA = {"extra_row"}
 
@@ -223,6 +223,20 @@ def inject(df, spec, info, fault, rng, where):
             j = (i + 1) % n
             df = df.drop(index=j).reset_index(drop=True)
         return pd.concat([df, row], ignore_index=True), {"row": i, "column": str(c)}
+    if fault == "relabel_to_existing":
+        # one row takes over the labels of another: the number of rows stays that of a complete table, one combination is
+        # there twice (with competing values) and one is missing
+        if n < 2 or not dimcols:
+            return None, "too few rows"
+        i = position(rng, n, where)
+        j = int(rng.integers(0, n - 1))
+        j = j if j < i else j + 1
+        same = all(df.loc[i, c] == df.loc[j, c] for c in dimcols)
+        if same:
+            return None, "rows carry the same labels already"
+        for c in dimcols:
+            df.loc[i, c] = df.loc[j, c]
+        return df, {"row": i, "takes_labels_of": j}
     if fault == "unknown_item":
         if not dimcols:
             return None, "no dimension column"
